@@ -17,6 +17,7 @@ func init() {
 func c04(r *Report, s *Sem) {
 	p := r.P
 	a := s.anchors()
+	defer r.Import(s, "C20", "R2", "R13", "exactly once at the handler level: each handle function stops scanning after the first handler it invoked (without the break an envelope is handed to every matching handler and a request is answered twice)", 12)
 	R12 := r.Rule("R12", "no deadline of one operation outlives it on a WebSocket connection: the library never re-arms deadlines per write or read there, so the only deadline it may install is the immediate one (time.Now()) that makes a blocked helper fail on cancellation — a deadline taken from a context stays on the connection and fails every later send made under a context without deadline, while both ends stay established", 2)
 	defer func() {
 		n := 0
